@@ -141,11 +141,17 @@ theorem idempotent_preserves (orig once twice : RPod) (h1 : Preserves orig once)
     Preserves orig twice := by
   unfold Idempotent at hi; subst hi; exact h1
 
+theorem nodupB_iff (l : List String) : nodupB l = true ↔ l.Nodup := by
+  induction l with
+  | nil => simp [nodupB]
+  | cons x xs ih => simp [nodupB, ih, List.nodup_cons]
+
 /-- The monitors part is `okInjected` exactly when the observation is complete and the statements hold. -/
 theorem judgeMonitors_ok_iff (o : Obs) :
     judgeMonitors o = .okInjected ↔
       ∃ a b c, o.orig = some a ∧ o.once = some b ∧ o.twice = some c ∧
-        Preserves a b ∧ Preserves a c ∧ (a.fresh = true → StatusTruthful a b) ∧ Idempotent b c := by
+        Preserves a b ∧ Preserves a c ∧ b.ctrNames.Nodup ∧ c.ctrNames.Nodup ∧
+        (a.fresh = true → StatusTruthful a b) ∧ Idempotent b c := by
   unfold judgeMonitors
   constructor
   · intro h
@@ -154,15 +160,20 @@ theorem judgeMonitors_ok_iff (o : Obs) :
       refine ⟨a, b, c, ha, hb, hc, ?_⟩
       repeat' split at h
       all_goals try (simp at h; done)
-      rename_i k1 k2 k3 k4 k5 k6 k7 k8 k9 k10
+      rename_i k1 k2 k3 k4 k5 k6 k7 k8 kd k9 k10
       simp only [Bool.not_eq_eq_eq_not, Bool.not_true, Bool.and_eq_true, not_and, Bool.not_eq_false] at k1 k2 k3 k4 k5 k6 k7 k8 k9 k10
-      refine ⟨(preservesB_iff a b).mp ?_, (preservesB_iff a c).mp ?_, ?_, (idempotentB_iff b c).mp ?_⟩
+      have kd' : nodupB b.ctrNames = true ∧ nodupB c.ctrNames = true := by
+        cases h1 : nodupB b.ctrNames <;> cases h2 : nodupB c.ctrNames <;> simp_all
+      refine ⟨(preservesB_iff a b).mp ?_, (preservesB_iff a c).mp ?_, (nodupB_iff _).mp kd'.1, (nodupB_iff _).mp kd'.2, ?_,
+        (idempotentB_iff b c).mp ?_⟩
       · simp_all [preservesB]
       · simp_all [preservesB]
       · intro hf; exact (statusTruthfulB_iff a b).mp (by simpa using k9 hf)
       · simp_all
     · simp at h
-  · rintro ⟨a, b, c, ha, hb, hc, h1, h2, h3, h4⟩
+  · rintro ⟨a, b, c, ha, hb, hc, h1, h2, hd1, hd2, h3, h4⟩
+    have pd1 := (nodupB_iff _).mpr hd1
+    have pd2 := (nodupB_iff _).mpr hd2
     have p1 := (preservesB_iff a b).mpr h1
     have p2 := (preservesB_iff a c).mpr h2
     have p4 := (idempotentB_iff b c).mpr h4
@@ -171,14 +182,37 @@ theorem judgeMonitors_ok_iff (o : Obs) :
       cases hf : a.fresh
       · simp
       · simp [(statusTruthfulB_iff a b).mpr (h3 hf)]
-    simp [ha, hb, hc, p1.1.1.1, p1.1.1.2, p1.1.2, p1.2, p2.1.1.1, p2.1.1.2, p2.1.2, p2.2, p3, p4]
+    simp [ha, hb, hc, p1.1.1.1, p1.1.1.2, p1.1.2, p1.2, p2.1.1.1, p2.1.1.2, p2.1.2, p2.2, p3, p4, pd1, pd2]
+
+def Verdict.injOrFail : Verdict → Prop
+  | .okInjected => True
+  | .fail _ => True
+  | _ => False
+
+theorem judgeMonitors_injOrFail (o : Obs) : (judgeMonitors o).injOrFail := by
+  unfold judgeMonitors
+  split
+  · repeat' split
+    all_goals exact True.intro
+  · exact True.intro
+
+/-- The monitors part only ever says `okInjected` or `fail`. -/
+theorem judgeMonitors_cases (o : Obs) : judgeMonitors o = .okInjected ∨ ∃ c, judgeMonitors o = .fail c := by
+  have h := judgeMonitors_injOrFail o
+  cases hv : judgeMonitors o with
+  | okInjected => exact Or.inl rfl
+  | fail c => exact Or.inr ⟨c, rfl⟩
+  | okSkipped => rw [hv] at h; exact absurd h (by simp [Verdict.injOrFail])
+  | okRejected => rw [hv] at h; exact absurd h (by simp [Verdict.injOrFail])
+  | okNotApplicable => rw [hv] at h; exact absurd h (by simp [Verdict.injOrFail])
 
 /-- `OK injected` is printed only if the documented decision is known and is "inject", no refusal was due, and all
     monitors accept. -/
 theorem judge_injected_sound (o : Obs) (h : judge o = .okInjected) :
     o.status = "injected" ∧ o.expect = some true ∧ o.refusal ≠ "must" ∧
     ∃ a b c, o.orig = some a ∧ o.once = some b ∧ o.twice = some c ∧
-      Preserves a b ∧ Preserves a c ∧ (a.fresh = true → StatusTruthful a b) ∧ Idempotent b c := by
+      Preserves a b ∧ Preserves a c ∧ b.ctrNames.Nodup ∧ c.ctrNames.Nodup ∧
+      (a.fresh = true → StatusTruthful a b) ∧ Idempotent b c := by
   unfold judge at h
   split at h
   all_goals try (simp at h; done)
@@ -204,9 +238,10 @@ theorem judge_injected_sound (o : Obs) (h : judge o = .okInjected) :
 theorem judge_injected_complete (o : Obs) (a b c : RPod) (hs : o.status = "injected")
     (he : o.expect = some true) (hr : o.refusal ≠ "must")
     (ha : o.orig = some a) (hb : o.once = some b) (hc : o.twice = some c)
-    (h1 : Preserves a b) (h2 : Preserves a c) (h3 : a.fresh = true → StatusTruthful a b) (h4 : Idempotent b c) :
+    (h1 : Preserves a b) (h2 : Preserves a c) (hd1 : b.ctrNames.Nodup) (hd2 : c.ctrNames.Nodup)
+    (h3 : a.fresh = true → StatusTruthful a b) (h4 : Idempotent b c) :
     judge o = .okInjected := by
-  have hm := (judgeMonitors_ok_iff o).mpr ⟨a, b, c, ha, hb, hc, h1, h2, h3, h4⟩
+  have hm := (judgeMonitors_ok_iff o).mpr ⟨a, b, c, ha, hb, hc, h1, h2, hd1, hd2, h3, h4⟩
   unfold judge
   simp [hs, he, hr, hm]
 
@@ -237,11 +272,7 @@ theorem judge_skipped_sound (o : Obs) (h : judge o = .okSkipped) :
     all_goals try (simp at h; done)
     split at h
     · simp at h
-    · unfold judgeMonitors at h
-      split at h
-      · repeat' split at h
-        all_goals simp at h
-      · simp at h
+    · rcases judgeMonitors_cases o with h' | ⟨c, h'⟩ <;> rw [h'] at h <;> simp at h
 
 /-- `OK rejected` is printed only if the documented decision is known and is "inject", and a refusal was due or allowed. -/
 theorem judge_rejected_sound (o : Obs) (h : judge o = .okRejected) :
@@ -267,11 +298,7 @@ theorem judge_rejected_sound (o : Obs) (h : judge o = .okRejected) :
     all_goals try (simp at h; done)
     split at h
     · simp at h
-    · unfold judgeMonitors at h
-      split at h
-      · repeat' split at h
-        all_goals simp at h
-      · simp at h
+    · rcases judgeMonitors_cases o with h' | ⟨c, h'⟩ <;> rw [h'] at h <;> simp at h
 
 /-- The webhook-level decision is judged: an injected pod whose documented decision is "skip", a skipped pod whose
     documented decision is "inject", and any admission whose decision inputs are missing are rejected whatever else
@@ -345,4 +372,8 @@ example : ¬ Preserves { exOrig with containers := exOrig.containers ++ [{ exApp
   fun h => absurd ((preservesB_iff _ _).mpr h) (by decide +kernel)
 example : judge { status := "injected", expect := none, orig := some exOrig, once := some exOnce, twice := some exOnce }
     = .fail "no-decision-inputs" := by decide +kernel
+/-- a second container of a name that is already there (e.g. a second istio-proxy as init container) is rejected -/
+example : judge { status := "injected", expect := some true, orig := some exOrig,
+                  once := some { exOnce with inits := [exInit, exProxy] }, twice := some { exOnce with inits := [exInit, exProxy] } }
+    = .fail "duplicate-container-name" := by decide +kernel
 end IstioModel.C19
